@@ -1,0 +1,23 @@
+//go:build !verif
+
+package simhook
+
+import (
+	"sync"
+
+	"github.com/go-git/go-git/v6/plumbing"
+)
+
+// BeforeLock is called immediately before mu.Lock() at lock sites that can be
+// held across I/O.
+func BeforeLock(sync.Locker) {}
+
+// BeforeRLock is called immediately before mu.RLock().
+func BeforeRLock(*sync.RWMutex) {}
+
+// Yield marks a pure scheduling point.
+func Yield(string) {}
+
+// SortHashes is called on hash lists whose order comes from map iteration
+// and leaks into I/O order.
+func SortHashes([]plumbing.Hash) {}
